@@ -65,8 +65,22 @@ def scenario(rng, ticks):
             if not idle:
                 ops.append({"op": "lookup", "rt": rt, "name": n})
         ops.append({"op": "await_sweep", "ms": k})
-        # refetch: an evicted name is looked up again and re-delivered
         evicted = [(rt, n) for (rt, n), idle in plan.items() if idle and not (rt == "lds" and n == "virtualInbound")]
+        # the control plane answers the unsubscription: a response of a type that may have no names left is still acknowledged
+        for rt in sorted({rt for rt, _ in evicted}):
+            if rng.random() < 0.6:
+                g.version += 1
+                st = g.next_stamp()
+                other = {"lds": lambda: sysgen.listener("unrelated", st), "rds": lambda: sysgen.route_config("unrelated", st),
+                         "cds": lambda: sysgen.cluster("unrelated", st), "eds": lambda: sysgen.endpoints("unrelated", st)}[rt]()
+                keep = []
+                if rt in ("lds", "cds"):   # full-state types: repeat what must stay cached
+                    keep = [r for op in ops if op["op"] == "resp" and op["rt"] == rt for r in op["resources"] if r[0] == "RGood" and (rt, r[1][1]) in plan and not plan[(rt, r[1][1])]]
+                    if rt == "lds" and lds_warm:
+                        keep += c["init_lds"]["resources"]
+                ops.append({"op": "resp", "rt": rt, "version": "v%d" % g.version, "nonce": "n%d" % g.version,
+                            "resources": [C("RGood", other)] + keep if rng.random() < 0.8 else [C("RUnparsable")]})
+        # refetch: an evicted name is looked up again and re-delivered
         for (rt, n) in evicted[:2]:
             ops.append({"op": "lookup", "rt": rt, "name": n})
             g.version += 1
@@ -75,7 +89,7 @@ def scenario(rng, ticks):
                     "cds": lambda: sysgen.cluster(n, st), "eds": lambda: sysgen.endpoints(n, st)}[rt]()
             extra = []
             if rt in ("lds", "cds"):   # full-state types: keep what is cached
-                extra = [r for op in ops if op["op"] == "resp" and op["rt"] == rt for r in op["resources"] if r[1][1] != n and (rt, r[1][1]) in plan and not plan[(rt, r[1][1])]]
+                extra = [r for op in ops if op["op"] == "resp" and op["rt"] == rt for r in op["resources"] if r[0] == "RGood" and r[1][1] != n and (rt, r[1][1]) in plan and not plan[(rt, r[1][1])]]
                 if rt == "lds" and lds_warm:
                     extra += c["init_lds"]["resources"]
             ops.append({"op": "resp", "rt": rt, "version": "v%d" % g.version, "nonce": "n%d" % g.version, "resources": [C("RGood", body)] + extra})
